@@ -235,6 +235,17 @@ let () =
         let w = bytes_of inp in
         let toks = List.map (function L [r; k] -> (n_of_int (ai r), nat_of_int (ai k)) | _ -> failwith "tok") toks in
         Printf.printf "validate %s\n" (if validate prog (n_of_int (ai sc)) (ab bol) w toks then "OK" else "FAIL")
+      | L [A "optmodel"] ->
+        List.iter (fun o ->
+            let b x = if x then 1 else 0 in
+            let tr = function Unspec -> 0 | TTrue -> 1 | TFalse -> 2 in
+            let out = match model o with
+              | Refuse -> "refuse"
+              | Accept (a, w) -> Printf.sprintf "accept array=%d warn=%d" (b a) (b w) in
+            Printf.printf "opt full=%d fast=%d meta=%d inter=%d lex=%d cxx=%d reent=%d bison=%d array=%d reject=%d vartrail=%d lineno=%d %s\n"
+              (b o.o_full) (b o.o_fast) (b o.o_meta) (tr o.o_inter) (b o.o_lex) (b o.o_cxx) (b o.o_reent)
+              (b o.o_bison) (b o.o_array) (b o.o_reject) (b o.o_vartrail) (b o.o_lineno) out)
+          all_optsets
       | L [A "matchb"; rl; part; inp] ->
         (* part: 0 whole, 1 head, 2 trail *)
         let r = List.nth prog.p_rules (ai rl - 1) in
